@@ -564,6 +564,12 @@ package transport
 //@   at! `assign c.active[*]` ghost registered = true
 //@   at! `assign c.active[*]` requires idx == msg.id
 //@   callsite DispatchOperation: requires registered
+// C11 "every operation a client starts receives its results in order and is then terminated by an error and/or a
+// completion": every frame this function (and its goroutine) sends for the operation carries the id of the frame that
+// started it; a result frame carries the response just obtained from the handler
+//@   callsite sendResponse: requires arg0 == msg.id
+//@   callsite complete: requires arg0 == msg.id
+//@   callsite sendError: requires arg0 == msg.id
 
 // ---------------------------------------------------------------- C09: status codes and content negotiation
 //@ func statusFor [C09]
